@@ -131,6 +131,64 @@ func TestVerifC14(t *testing.T) {
 			rec(nil)
 		}
 	})
+	// ---- a middleware that lives long: every decision is made against the clock at the time of its
+	// request, not at the time the middleware (or the handler it wraps) was built.  For every age of
+	// the middleware x expiration relative to the request x skew, and for two requests through one
+	// wrapped handler with the clock advancing in between.
+	aged := env.NewCases(res, "clock-advances")
+	ages := []time.Duration{0, time.Nanosecond, 29 * time.Second, 30 * time.Second, time.Hour, 24 * 365 * time.Hour}
+	for _, age := range ages {
+		for _, skew := range []time.Duration{0, 30 * time.Second} {
+			for _, rel := range []time.Duration{-time.Hour, -time.Nanosecond, 0, time.Nanosecond, time.Hour} {
+				for _, wrapEarly := range []bool{false, true} {
+					idx, mine := aged.Next()
+					if !mine {
+						continue
+					}
+					synctest.Test(t, func(t *testing.T) {
+						desc := fmt.Sprintf("middleware age=%v skew=%v expiration=request time%+v-skew handler wrapped at construction=%v", age, skew, rel, wrapEarly)
+						var exp time.Time
+						verifier := func(ctx context.Context, token string, r *http.Request) (*TokenInfo, error) {
+							return &TokenInfo{Expiration: exp, UserID: "u"}, nil
+						}
+						ran := 0
+						inner := http.HandlerFunc(func(w http.ResponseWriter, r *http.Request) { ran++ })
+						mw := RequireBearerToken(verifier, &RequireBearerTokenOptions{ClockSkew: skew})
+						var wrapped http.Handler
+						if wrapEarly {
+							wrapped = mw(inner)
+						}
+						for step := 0; step < 2; step++ {
+							time.Sleep(age)
+							if wrapped == nil {
+								wrapped = mw(inner)
+							}
+							now := time.Now()
+							exp = now.Add(-skew).Add(rel) // rel >= 0: unexpired within the skew
+							r := httptest.NewRequest("GET", "http://rs.example/mcp", nil)
+							r.Header.Set("Authorization", "Bearer tok")
+							w := httptest.NewRecorder()
+							before := ran
+							wrapped.ServeHTTP(w, r)
+							admit := rel >= 0
+							switch {
+							case admit && ran != before+1:
+								aged.Violate(idx, "c14 clock valid-request-rejected", fmt.Sprintf("request #%d: the token expires at request time%+v+skew, yet it was rejected with %d [%s]", step+1, rel, w.Code, desc), 2)
+								return
+							case !admit && ran != before:
+								aged.Violate(idx, "c14 clock invalid-request-admitted: expired", fmt.Sprintf("request #%d: the token expired %v before the request (beyond the skew), yet the handler ran [%s]", step+1, -rel, desc), 2)
+								return
+							case !admit && w.Code != 401:
+								aged.Violate(idx, fmt.Sprintf("c14 clock wrong-status-%d", w.Code), fmt.Sprintf("request #%d: expired token answered with %d [%s]", step+1, w.Code, desc), 2)
+								return
+							}
+						}
+						aged.Record(idx, fmt.Sprintf("admit=%v", rel >= 0), 2, func() string { return desc })
+					})
+				}
+			}
+		}
+	}
 	env.Finish(res)
 }
 
